@@ -55,6 +55,12 @@ def lookup(fn: Any) -> Optional[Callable]:
         return _int_from_bytes
     if fn is int.to_bytes:
         return _int_to_bytes_unbound
+    import random as _random
+
+    if isinstance(slf, _random.Random) and not isinstance(slf, _random.SystemRandom) and getattr(fn, "__name__", "") in ("randbytes", "getrandbits", "randint", "randrange"):
+        from . import extmodels as _ext
+
+        return _ext._prng_bytes if fn.__name__ == "randbytes" else _ext._prng_int
     return None
 
 
@@ -712,6 +718,14 @@ def api_function(it: Any, fn: Any, args: list, kwargs: dict, f: Any) -> Any:
         if key not in p.ghost:
             p.ghost[key] = it.reg.make_symbolic(it, "ghost_" + str(args[0]), args[1] if len(args) > 1 else bytes)
         return p.ghost[key]
+    if name == "ghost_exists":
+        from . import extmodels as _ext
+
+        return _ext.ghost_exists(it, args[0])
+    if name == "ghost_stat":
+        from . import extmodels as _ext
+
+        return tuple(_ext.ghost_stat(it, args[0]))
     if name == "drawn_tick":
         x = args[0]
         if not is_bytes_like(x):
